@@ -144,6 +144,8 @@ impl CoreUnit {
         self.format_version == FORMAT_VERSION
             && self.compiler_abi == COMPILER_ABI
             && self.package == self.interface.package
+            && self.interface.format_version == FORMAT_VERSION
+            && self.interface.compiler_abi == COMPILER_ABI
             && self.interface.validate_hash()
             && self.deps == self.interface.deps
     }
